@@ -78,6 +78,14 @@ func VerifPrintSchedule() {
 			r.sortAlphabetically = true
 			r.csv = true
 			err = r.execute(cmd, []string{v.FSPath("root.knut")})
+		case 2:
+			var r transcodeRunner
+			r.valuation.Set("CHF")
+			err = r.execute(cmd, []string{v.FSPath("root.knut")})
+		case 3: // check --write prints to the process's standard output
+			r := checkRunner{write: true}
+			o := v.CaptureStdout(func() { err = r.execute(cmd, []string{v.FSPath("root.knut")}) })
+			return o, err
 		}
 		return out.String(), err
 	}
@@ -87,6 +95,6 @@ func VerifPrintSchedule() {
 	if e1 != nil || e2 != nil {
 		return
 	}
-	sameDayAcrossFiles := jn == 1 && kind == 0
+	sameDayAcrossFiles := jn == 1 && (kind == 0 || kind == 2) // print and transcode emit the directives themselves
 	v.AssertExcept(o1 == o2, "same-output-on-every-run", "C06-F20", sameDayAcrossFiles)
 }
